@@ -1,11 +1,14 @@
 (* Evaluation of the C10 model on harness-written cases (correspondence check). *)
 From Coq Require Import List ZArith NArith String Bool.
 From V.Base Require Import Hex.
-From V.C10 Require Import Model Machine Fast.
+From V.C10 Require Import Model Machine Fast Keccak YP Sim.
 Import ListNotations.
 Local Open Scope Z_scope.
 
 Definition zbytes (h : string) : list Z := map Z.of_N (unhex h).
+
+(* KECCAK-256 (Gallina, coq/C10/Keccak.v) as the [hash] parameter of both machines *)
+Definition khash (bs : list Z) : Z := be_word (map Z.of_N (keccak256 (map Z.to_N bs))).
 
 Fixpoint zlist_eqb (a b : list Z) : bool :=
   match a, b with
@@ -69,9 +72,24 @@ Definition spec_jumpdest_tbl (c : code) : Z -> bool :=
   (* [if], not [&&]: the VM is call-by-value and Z.to_nat of a 200-bit destination must never be built *)
   fun d => if (0 <=? d) && (d <? n) then (cnth c d =? 91) && nth (Z.to_nat d) st false else false.
 
+(* the Yellow-Paper machine on the same program: compared with the observed run on the gas-free projection *)
+Definition defined_of (P : params) (w : Z) : bool := r_def (znth (p_tab P) w no_row).
+Definition ycheck (P : params) (E : env) (c input : list Z) (fuel : nat) (p : pobs) : bool :=
+  match yrun (defined_of P) khash E c input fuel y0, p with
+  | YOutside _, _ => true                       (* GAS or an instruction outside the gas-free set *)
+  | _, PFail 4 | _, PFail 5 => true             (* out of gas / gas overflow: projected away *)
+  | YStop, PStop _ => true
+  | YStop, PRet d _ => zlist_eqb [] (zbytes d)
+  | YReturn o, PRet d _ => zlist_eqb o (zbytes d)
+  | YRevert o, PRev d _ => zlist_eqb o (zbytes d)
+  | YExc, PFail _ => true
+  | _, _ => false
+  end.
+
 Inductive ccase :=
 | COp (opcode x y z : Z) (result : Z)
-| CProg (code input : string) (gas : Z) (obs : pobs)
+| CProg (code input : string) (gas : Z) (E : env) (obs : pobs)
+| CTable
 | CJump (code bitmap : string) (dests : list (Z * bool)).
 
 Definition check (P : params) (cs : ccase) : bool :=
@@ -81,12 +99,15 @@ Definition check (P : params) (cs : ccase) : bool :=
       | Some o => wordb x && wordb y && wordb z && (impl_op o x y z =? r) && (fast_op o x y z =? r) && spec_agrees o x y z r
       | None => false
       end
-  | CProg code input gas obs =>
+  | CProg code input gas E obs =>
       let c := zbytes code in
-      (* run_fast = run_impl (Fast.run_fast_eq); every non-halting step costs at least 1 gas, so gas + 2 iterations always suffice; the cap keeps
-         the fuel numeral small (the harness generates programs well below it) *)
-      let '(o, maxh) := run_fast P c (zbytes input) (Z.to_nat (Z.min gas 40000) + 2) gas in
-      obs_eqb o obs && (maxh <=? 1024)
+      let inp := zbytes input in
+      (* run_fast = run_impl (Fast.run_fast_eq); every non-halting step costs at least 1 gas, so gas + 2 iterations
+         always suffice; the cap keeps the fuel numeral small (the harness generates programs well below it) *)
+      let fuel := (Z.to_nat (Z.min gas 40000) + 2)%nat in
+      let '(o, maxh) := run_fast khash E P c inp fuel gas in
+      obs_eqb o obs && (maxh <=? 1024) && ycheck P E c inp fuel obs
+  | CTable => table_ok (defined_of P) P
   | CJump code bm dests =>
       let c := zbytes code in
       let f := code_bitmap c in
